@@ -13,6 +13,7 @@ def run(ctx):
         (1, C.gen_shared_group_expiry),
         (1, C.gen_colliding_groups),
         (1, C.gen_dash),
+        (2, lambda r: C.gen_mixed(r, C.W_SAMECHAIN, nblocks=r.randrange(3, 8), p_group=0.1)),
     ]
     return C.run_check(ctx, "C02", gens, 110, 6000, router_n=60 if ctx.quick else 3000)
 
